@@ -39,7 +39,7 @@ let () =
         (match O.load_file (coq_of_string line) with
          | Some ld -> cur := Some ld; print_string "#\tloaded\t\n"
          | None -> cur := None; print_string "#\tloadfail\t\n")
-      end else if starts_with "(parse " line || starts_with "(parse-rules " line then begin
+      end else if starts_with "(parse " line || starts_with "(parse-rules " line || starts_with "(parse-tree " line then begin
         (* parser model: needs no loaded file *)
         print_string (string_of_coq (O.parse_line (coq_of_string line)));
         print_char '\n'
